@@ -97,7 +97,205 @@ pub fn check_case(ctx: &Ctx, st: &mut Stats, tcs: &[String], s: Settings) {
     }
 }
 
+
+/// Every word accepted by an acyclic snapshot whose edges are single symbols (None above `cap` words or on a cycle).
+fn accepted_words(s: &stages::Snapshot, cap: usize) -> Option<std::collections::BTreeSet<String>> {
+    let mut adj: std::collections::HashMap<usize, Vec<(String, usize)>> = std::collections::HashMap::new();
+    for (a, b, g) in &s.edges {
+        if g.min != 1 || g.max != 1 {
+            return None;
+        }
+        adj.entry(*a).or_default().push((g.chars.join(""), *b));
+    }
+    let finals: std::collections::HashSet<usize> = s.finals.iter().copied().collect();
+    let mut out = std::collections::BTreeSet::new();
+    let mut stack: Vec<(usize, String, usize)> = vec![(s.start, String::new(), 0)];
+    let limit = s.nodes.len() + 1;
+    while let Some((n, w, depth)) = stack.pop() {
+        if depth > limit {
+            return None;
+        }
+        if finals.contains(&n) {
+            out.insert(w.clone());
+            if out.len() > cap {
+                return None;
+            }
+        }
+        if let Some(es) = adj.get(&n) {
+            for (l, t) in es {
+                stack.push((*t, format!("{w}{l}"), depth + 1));
+            }
+        }
+    }
+    Some(out)
+}
+
+/// The words of a dense case: all words of length `len` over `sigma` (plus those of length len-3 when
+/// `shorter`), without the words left out.
+pub fn dense_words(spec: &serde_json::Value) -> (Vec<String>, Vec<String>) {
+    let sigma: Vec<String> = spec["sigma"].as_array().map(|a| a.iter().filter_map(|v| v.as_str().map(String::from)).collect()).unwrap_or_default();
+    let sig: Vec<&str> = sigma.iter().map(|x| x.as_str()).collect();
+    let len = spec["len"].as_u64().unwrap_or(1) as usize;
+    let shorter = spec["shorter"].as_bool().unwrap_or(false);
+    let left: Vec<String> = spec["left_out"].as_array().map(|a| a.iter().filter_map(|v| v.as_str().map(String::from)).collect()).unwrap_or_default();
+    let gone: std::collections::HashSet<&String> = left.iter().collect();
+    let mut words = gen::words(&sig, len);
+    words.retain(|w| (w.chars().count() == len || (shorter && w.chars().count() + 3 == len)) && !gone.contains(w));
+    (words, left)
+}
+
+thread_local! {
+    static DENSE_WANT: std::cell::RefCell<std::collections::BTreeSet<String>> = const { std::cell::RefCell::new(std::collections::BTreeSet::new()) };
+    static DENSE_REPORT: std::cell::RefCell<serde_json::Value> = std::cell::RefCell::new(json!({"violations": [], "comparisons": 0}));
+}
+
+fn dense_violation(kind: &str, detail: String, witness: Option<String>) {
+    DENSE_REPORT.with(|r| r.borrow_mut()["violations"].as_array_mut().unwrap().push(json!({"kind": kind, "detail": detail, "witness": witness})));
+}
+
+/// Invariant at the hook: runs when the automaton is recorded, i.e. before state elimination starts.
+fn dense_observer(e: &grex::verif::Event) {
+    let grex::verif::Event::Dfa { minimized, start, finals, nodes, edges } = e else { return };
+    let snap = stages::Snapshot { start: *start, finals: finals.clone(), nodes: nodes.clone(), edges: edges.clone() };
+    let name = if *minimized { "min" } else { "trie" };
+    DENSE_REPORT.with(|r| r.borrow_mut()[format!("{name}_states")] = json!(nodes.len()));
+    let want = DENSE_WANT.with(|w| w.borrow().clone());
+    match accepted_words(&snap, want.len() + 1000) {
+        Some(got) if got == want => DENSE_REPORT.with(|r| {
+            let c = r.borrow()["comparisons"].as_u64().unwrap_or(0);
+            r.borrow_mut()["comparisons"] = json!(c + 1);
+        }),
+        Some(got) => {
+            let w = got.symmetric_difference(&want).next().cloned().unwrap_or_default();
+            dense_violation(&format!("stage_spec_to_{name}"), format!("language of the {name} automaton differs from the test cases at {w:?}"), Some(w));
+        }
+        None => dense_violation(&format!("stage_spec_to_{name}"), format!("the {name} automaton is cyclic or accepts over 1000 words more than the test cases"), None),
+    }
+    if *minimized {
+        match stages::structure(&snap) {
+            None => dense_violation("minimised_has_cycle", "minimised automaton is cyclic".into(), None),
+            Some(ms) => {
+                if !ms.nondeterministic.is_empty() {
+                    dense_violation("minimised_not_deterministic", ms.nondeterministic.iter().take(3).cloned().collect::<Vec<_>>().join("; "), None);
+                }
+                if ms.unreachable > 0 || ms.dead > 0 {
+                    dense_violation("minimised_not_trim", format!("{} unreachable, {} dead states", ms.unreachable, ms.dead), None);
+                }
+                if ms.equivalent_pairs > 0 {
+                    let trie = DENSE_REPORT.with(|r| r.borrow()["trie_states"].clone());
+                    dense_violation("minimised_not_minimal", format!("{} state(s) share a right language with another state ({} states for a trie of {trie})", ms.equivalent_pairs, ms.states), None);
+                }
+            }
+        }
+        // the verdict on the automaton is in: report it now, an automaton that is not minimal can make
+        // state elimination exhaust the memory of the process
+        let bad = DENSE_REPORT.with(|r| !r.borrow()["violations"].as_array().unwrap().is_empty());
+        if bad {
+            DENSE_REPORT.with(|r| println!("{}", r.borrow()));
+            use std::io::Write;
+            let _ = std::io::stdout().flush();
+            std::process::exit(0);
+        }
+    }
+}
+
+/// Child mode `vharness __c16_dense <spec json>`: one dense case in its own address space; prints one JSON line.
+pub fn dense_child_main(spec: &str) -> i32 {
+    install_quiet_panic_hook();
+    let Ok(spec) = serde_json::from_str::<serde_json::Value>(spec) else { return 2 };
+    let (tcs, left_out) = dense_words(&spec);
+    DENSE_WANT.with(|w| *w.borrow_mut() = tcs.iter().cloned().collect());
+    grex::verif::set_observer(Some(dense_observer));
+    let (res, _ev) = build_ev(&tcs, Settings::new(0));
+    grex::verif::set_observer(None);
+    match res {
+        Err(p) => dense_violation("panic", format!("build() panicked: {p}"), None),
+        Ok(out) => {
+            DENSE_REPORT.with(|r| {
+                r.borrow_mut()["output_len"] = json!(out.len());
+                r.borrow_mut()["output_head"] = json!(out.chars().take(120).collect::<String>());
+            });
+            match regex::Regex::new(&out) {
+                Err(e) => dense_violation("stage_pattern_invalid", format!("final expression does not compile: {e}"), None),
+                Ok(re) => {
+                    if let Some(w) = tcs.iter().find(|w| !re.is_match(w)) {
+                        dense_violation("stage_min_to_out", format!("final expression stops accepting {w:?}"), Some(w.clone()));
+                    } else if let Some(w) = left_out.iter().find(|w| re.is_match(w)) {
+                        dense_violation("stage_min_to_out", format!("final expression starts accepting {w:?}"), Some(w.clone()));
+                    } else {
+                        DENSE_REPORT.with(|r| {
+                            let c = r.borrow()["comparisons"].as_u64().unwrap_or(0);
+                            r.borrow_mut()["comparisons"] = json!(c + 1);
+                        });
+                    }
+                }
+            }
+        }
+    }
+    DENSE_REPORT.with(|r| println!("{}", r.borrow()));
+    0
+}
+
+/// Automata with tens of thousands of trie states: the general stage comparison is out of reach of the
+/// oracle there, so an observer installed at the hook judges the trie and the minimised automaton the
+/// moment they are recorded (language by enumeration against the test cases; deterministic, trim, no two
+/// states with one right language), and the final expression is run against every test case and the
+/// words left out. Each case runs in a child process with a bounded address space; a child that dies
+/// without a verdict is inconclusive.
+pub fn check_dense(ctx: &Ctx, st: &mut Stats, spec: &serde_json::Value) {
+    let _ = ctx;
+    st.evaluations += 1;
+    let mut case = spec.clone();
+    case["dense"] = json!(true);
+    let exe = std::env::current_exe().unwrap();
+    let out = std::process::Command::new("sh")
+        .arg("-c")
+        .arg("ulimit -v 8000000; exec \"$0\" __c16_dense \"$1\"")
+        .arg(&exe)
+        .arg(spec.to_string())
+        .stderr(std::process::Stdio::null())
+        .output();
+    let out = match out {
+        Ok(o) => o,
+        Err(e) => {
+            st.inconclusive(&format!("dense child: spawn: {e}"));
+            return;
+        }
+    };
+    let line = String::from_utf8_lossy(&out.stdout);
+    let Some(rep) = line.lines().rev().find_map(|l| serde_json::from_str::<serde_json::Value>(l).ok()) else {
+        st.inconclusive(&format!("dense child ended without a verdict ({:?})", out.status));
+        return;
+    };
+    st.add("stage_comparisons", rep["comparisons"].as_u64().unwrap_or(0));
+    st.add("dense_trie_states", rep["trie_states"].as_u64().unwrap_or(0));
+    st.add("trie_states_total", rep["trie_states"].as_u64().unwrap_or(0));
+    st.add("min_states_total", rep["min_states"].as_u64().unwrap_or(0));
+    if rep["min_states"].is_u64() {
+        st.count("minimality_checks");
+    } else {
+        st.violation("hook_events_missing", "the build produced no minimised DFA snapshot".into(), case.clone());
+    }
+    for v in rep["violations"].as_array().cloned().unwrap_or_default() {
+        let mut c = case.clone();
+        c["witness"] = v["witness"].clone();
+        st.violation(v["kind"].as_str().unwrap_or("dense"), v["detail"].as_str().unwrap_or("").to_string(), c);
+    }
+    st.decided += 1;
+    st.distinct.insert(gen::hash_case(&[spec.to_string()], Settings::new(0)));
+    if rep["violations"].as_array().map_or(true, |a| a.is_empty()) {
+        st.sample(json!({"dense_case": spec, "trie_states": rep["trie_states"], "min_states": rep["min_states"], "output_head": rep["output_head"],
+            "verdict": "minimised automaton minimal, trim, deterministic; trie, minimised automaton and expression accept exactly the test cases"}));
+    }
+}
+
 pub fn replay(ctx: &Ctx, case: &serde_json::Value) {
+    if case["dense"].as_bool() == Some(true) {
+        let mut st = Stats::new();
+        check_dense(ctx, &mut st, case);
+        ctx.run.merge(st);
+        return;
+    }
     let (tcs, s) = case_from_json(case);
     let mut st = Stats::new();
     check_case(ctx, &mut st, &tcs, s);
@@ -204,6 +402,36 @@ pub fn run(ctx: &Ctx) -> i32 {
         par_for(&ctx.run, det.len() * fl.len(), |i, st| {
             st.count("cluster_repeat_cases");
             check_case(ctx, st, &det[i % det.len()], Settings::new(fl[i / det.len()]));
+        });
+    }
+    // tries with tens of thousands of states: all words of one or two lengths over a small alphabet, a few left out
+    {
+        let shapes: [(&[&str], usize); 8] = [
+            (&["a", "b"], 12),
+            (&["a", "b"], 14),
+            (&["a", "b", "c"], 8),
+            (&["a", "b", "c"], 9),
+            (&["x", "1", "-", "é"], 7),
+            (&["a", "b"], 15),
+            (&["a", "b", "c", "d", "e"], 6),
+            (&["a", "b", "c"], 10),
+        ];
+        let n_dense = if ctx.thorough { 48 } else { 6 };
+        par_for(&ctx.run, n_dense, |i, st| {
+            let mut rng = Rng::new(seed, 0x164_0000 + i as u64);
+            let (sigma, len) = shapes[if ctx.thorough { i % shapes.len() } else { (i + seed as usize) % 5 }];
+            let shorter = i % 3 == 2;
+            let drop = [0usize, 1, 3, 40][(i / 2 + seed as usize) % 4];
+            let (words, _) = dense_words(&json!({"sigma": sigma, "len": len, "shorter": shorter, "left_out": []}));
+            let mut left_out: Vec<String> = vec![];
+            while left_out.len() < drop {
+                let w = rng.pick(&words).clone();
+                if !left_out.contains(&w) {
+                    left_out.push(w);
+                }
+            }
+            st.count("dense_large_inputs");
+            check_dense(ctx, st, &json!({"sigma": sigma, "len": len, "shorter": shorter, "left_out": left_out}));
         });
     }
     // prefixes followed by different sets of repeat counts (all pairs of subsets of {1..5})
